@@ -297,6 +297,9 @@ func main() {
 			emit(out, fam, idx, sd, res)
 		}
 	case "explore":
+		if os.Getenv("C12_DEBUG") != "" {
+			dbgStates = map[string]int{}
+		}
 		budget := time.Duration(common.ArgInt(args, "ms", 20000)) * time.Millisecond
 		perFam := common.ArgInt(args, "perfam", 150)
 		nrand := common.ArgInt(args, "nrand", 400)
@@ -339,5 +342,8 @@ func main() {
 			}
 		}
 		fmt.Fprintf(os.Stderr, "runs=%d wall=%s\n", runs, time.Since(t0))
+		if dbgStates != nil {
+			fmt.Fprintln(os.Stderr, dbgStates)
+		}
 	}
 }
